@@ -1,6 +1,10 @@
 import PolyVerif.Model.Barcodes
 import PolyVerif.Spec.DeBruijn
 import PolyVerif.Spec.Nucleotide
+import PolyVerif.Spec.DeBruijnCert
+import PolyVerif.Gen.DeBruijnCert9
+import PolyVerif.Gen.DeBruijnCert10
+import PolyVerif.Gen.DeBruijnCert11
 /-
 Driver for C17.  Cases:
 
@@ -12,7 +16,9 @@ The harness calls the barcode function first and fetches the sequence of that or
 The model's barcodes are computed with `barcodesOnFast`, the executable twin of the model's loop
 (Props/C17 `barcodesOnFast_eq`: equal on every input).
 
-`corr`  : the reply equals the model's (`deBruijn n`; `createBarcodesWith`), a panic equals a panic.
+`corr`  : the reply equals the model's (`deBruijn n`; `createBarcodesWith`), a panic equals a panic; for
+          `db 9`, `db 10`, `db 11` the reply must ALSO equal the text of the extracted certificate tables
+          (Gen/DeBruijnCert9, 10, 11 — the strings the kernel-checked theorems of Props/C17Cert* speak about).
 `judge` : the property evaluated on the REAL output —
   db : `Spec.checkWith k n` (the verified checker, Props/C17 `windowsDistinct_sound`) on the returned string;
   bc : the returned de Bruijn string passes the checker, and the four laws hold of the returned
@@ -33,6 +39,13 @@ def modelDb (n : Nat) : Res Str := if h : n < dbTable.size then dbTable[n] else 
 
 /-- `check` of the model sequences (orders 0..8), once per process -/
 def dbOkTable : Array Bool := dbTable.mapIdx fun i r => match r with | .ok s => Spec.checkWith 0 i s | _ => false
+
+/-- the text the extracted certificate table of order 9 / 10 / 11 stands for (`Props.C17.generated9/10/11`) -/
+def generatedSeq (n : Nat) : Option Str :=
+  if n = 9 then some (Spec.seqStr Gen.DB9.chunkSymbols Gen.DB9.segs.flatten Gen.DB9.seqLength)
+  else if n = 10 then some (Spec.seqStr Gen.DB10.chunkSymbols Gen.DB10.segs.flatten Gen.DB10.seqLength)
+  else if n = 11 then some (Spec.seqStr Gen.DB11.chunkSymbols Gen.DB11.segs.flatten Gen.DB11.seqLength)
+  else none
 
 structure BcCase where
   length : Nat
@@ -251,9 +264,14 @@ def judge (f out : List String) : Verdict :=
     let j := match out with
       | ["ok", s] => Spec.checkWith (passes n) n s.toList
       | _ => false
-    { corr := outN == mOut, judge := if inDom then some j else none,
+    let tableOk := match generatedSeq n, out with
+      | some g, ["ok", s] => s.toList == g
+      | some _, _ => false
+      | none, _ => true
+    { corr := outN == mOut && tableOk, judge := if inDom then some j else none,
       cls := (if n = 0 then "triv:" else "") ++ "db/" ++ toString n,
-      detail := if outN == mOut then "" else
+      detail := if !tableOk then "the reply differs from the extracted certificate table Gen/DeBruijnCert" ++ toString n
+        else if outN == mOut then "" else
         match m with
         | .ok s => "model: " ++ (String.ofList (s.take 80)) ++ (if s.length > 80 then "…(" ++ toString s.length ++ ")" else "")
         | .panic => "model: panic" | .fuel => "model: fuel" }
